@@ -433,17 +433,41 @@ func (e *Engine) buildReq(op *Op) (string, interface{}) {
 	return method, map[string]interface{}{}
 }
 
+// watched: the client's file watcher covers its workspace folders only; what happens to a file
+// elsewhere (a document opened from outside the workspace) is never reported.
+func (e *Engine) watched(rel string) bool {
+	p := Abs(rel)
+	fs := e.CurFolders()
+	if len(fs) == 0 {
+		fs = []string{Root}
+	}
+	for _, f := range fs {
+		if strings.HasPrefix(p, strings.TrimSuffix(f, "/")+"/") {
+			return true
+		}
+	}
+	return false
+}
+
 func (e *Engine) queueEvent(rel string, typ int) {
+	if !e.watched(rel) {
+		e.probe("event.not-watched-outside-workspace")
+		return
+	}
 	e.events = append(e.events, pendingEvt{rel, typ})
 }
 
 func (e *Engine) sendEvents(evts []pendingEvt, opIdx int, async bool) {
-	if len(evts) == 0 {
-		return
-	}
 	var changes []interface{}
 	for _, ev := range evts {
+		if !e.watched(ev.path) {
+			e.probe("event.not-watched-outside-workspace")
+			continue
+		}
 		changes = append(changes, map[string]interface{}{"uri": URI(ev.path), "type": ev.typ})
+	}
+	if len(changes) == 0 {
+		return
 	}
 	e.sendRaw("workspace/didChangeWatchedFiles", map[string]interface{}{"changes": changes}, false, opIdx)
 	if !async {
@@ -816,7 +840,7 @@ func DiskFiles() []File {
 	for _, p := range simfs.Files() {
 		d, _ := simfs.Content(p)
 		if !strings.HasPrefix(p, Root+"/") {
-			if strings.HasPrefix(p, "/ws2/") {
+			if strings.HasPrefix(p, "/ws2/") || strings.HasPrefix(p, "/outside/") {
 				out = append(out, File{Path: p, Data: d}) // a second workspace root: absolute path
 			}
 			continue
